@@ -28,7 +28,7 @@ try:
     r1 = sh(["/venv/bin/python", demo], env=env, cwd="/tmp", timeout=600) if os.path.exists(demo) else None
     print("demo with patch: exit", r1.returncode if r1 else "n/a")
     t = time.time()
-    c = sh(["/verif/check", prop, "--tier", "quick"] + extra, timeout=3600)
+    c = sh(["/verif/check", prop, "--tier", "quick"] + extra, timeout=3600, env=dict(os.environ, VERIF_EVIDENCE_DIR="/tmp/verif-seeded-evidence"))
     tail = [ln for ln in c.stdout.splitlines() if not ln.startswith(("KNOWN-FINDING", "note:"))]
     print("\n".join(tail[-14:])[:3000])
     print(f"check exit {c.returncode} in {time.time()-t:.0f}s ->", "CAUGHT" if c.returncode == 1 else ("HARNESS-ERROR" if c.returncode == 2 else "MISSED"))
